@@ -20,7 +20,8 @@ import (
 //   - per op and receiver the messages are compared as a multiset (Go map
 //     iteration order, handler-vs-broker races are not part of any property
 //     decided here; ordering claims are C08's)
-//   - for a session that ends during an op only GOODBYE/ABORT are compared
+//   - when SEVERAL sessions end during one op only their GOODBYE/ABORT are
+//     compared (a session ending alone is compared in full)
 
 type PubNamer struct {
 	toName map[string]string // side-specific id -> canonical name
@@ -169,7 +170,11 @@ func CanonOp(obs []Obs, left []int, env *canonEnv, namer *PubNamer, realmOf func
 		if c == 2 { // WELCOME is consumed by the join itself
 			continue
 		}
-		if gone[o.Recv] && c != 6 && c != 3 {
+		if gone[o.Recv] && len(left) >= 2 && c != 6 && c != 3 {
+			// several sessions ending in one step: what each still receives
+			// of the others' departure depends on handler scheduling.  A
+			// session ending alone is compared in full: the model sends it
+			// nothing but its GOODBYE / ABORT.
 			continue
 		}
 		m := maskText(env.walk(o.Msg, ""))
